@@ -465,6 +465,11 @@ class Interp:
                 k = A.axes[0][1].as_int() if A.axes else None
                 if k is not None and k == len(t.elts):
                     seq = [arr_index(A, X.const(i)) for i in range(k)]
+            if seq is None and isinstance(v, ListVal) and not v.items and len(v.per_iter) == 1 and isinstance(v.per_iter[0], tuple):
+                # a comprehension / generator over a symbolic iterable of known constant length, unpacked into that many names
+                var_, cnt_, val_ = v.per_iter[0][:3]
+                if isinstance(cnt_, X) and cnt_.as_int() == len(t.elts):
+                    seq = [subst_val(val_, {var_: X.const(i)}) for i in range(len(t.elts))]
             if seq is None:
                 if isinstance(v, PV):
                     parts = []
